@@ -189,9 +189,10 @@ def NoneOr(shape):
     return OneOf(Const(None), shape)
 
 class Obj(Shape):
-    def __init__(self, cls, **fields):
+    def __init__(self, cls, _derive=None, **fields):
         self.cls = cls
         self.fields = fields
+        self.derive = _derive       # {field: fn(obj)} computed from the built fields (dependent fields)
     def build(self, b, name):
         cls = resolve(self.cls)
         if issubclass(cls, (list, dict)):
@@ -202,6 +203,9 @@ class Obj(Shape):
             if not isinstance(sh, Shape):
                 sh = Const(sh)
             obj.__dict__[f] = sh.build(b, name + '.' + f)
+        if self.derive:
+            for f, fn in self.derive.items():
+                obj.__dict__[f] = fn(obj)
         b.built[name] = obj
         return obj
 
@@ -279,6 +283,53 @@ class CExpr(object):
             env['_old_%d' % k] = v
         return eval(self._code, glob, env)
 
+class Exactly(object):
+    """post value: the target is a *new object* structurally equal to .obj
+    (same class, same fields) -- built by a spec helper; verification compares
+    field by field (never through the code's own __eq__), use assigns .obj"""
+    def __init__(self, obj):
+        self.obj = obj
+
+def exactly(obj):
+    return Exactly(obj) if obj is not None else None
+
+def struct_eq(I, got, want):
+    """structural equality for contract comparison (symbolic side)"""
+    if isinstance(want, Exactly):
+        want = want.obj
+        if got is None or type(got) is not type(want):
+            return False
+        acc = True
+        gd, wd = got.__dict__, want.__dict__
+        if set(gd) != set(wd):
+            return False
+        for k in wd:
+            r = struct_eq(I, gd[k], wd[k])
+            if r is False:
+                return False
+            acc = I.and_(acc, r)
+        return acc
+    if isinstance(want, (list, tuple)) and isinstance(got, (list, tuple)) and type(want) is type(got) and any(isinstance(x, Exactly) for x in want):
+        if len(got) != len(want):
+            return False
+        acc = True
+        for a, b in zip(got, want):
+            r = struct_eq(I, a, b)
+            if r is False:
+                return False
+            acc = I.and_(acc, r)
+        return acc
+    return I.truth_term(I.eq(got, want))
+
+def _unwrap(v):
+    if isinstance(v, Exactly):
+        return v.obj
+    if isinstance(v, list):
+        return [_unwrap(x) for x in v]
+    if isinstance(v, tuple):
+        return tuple(_unwrap(x) for x in v)
+    return v
+
 def snapshot(v):
     """immutable copy of a value for old()"""
     if isinstance(v, SBuf):
@@ -314,6 +365,13 @@ class Path(object):
 
 REGISTRY = {}       # contract id -> Contract
 LEMMAS = {}         # lemma id -> Lemma
+
+def buflen(v):
+    """length of a bytes-like value in either world (for derived fields)"""
+    if isinstance(v, SBuf):
+        n = v.length()
+        return n if isinstance(n, int) else mk_int(n)
+    return len(v)
 
 def _listify(x):
     if x is None:
@@ -405,7 +463,7 @@ class Contract(object):
             result = object.__new__(rcls)
             fr.locals['result'] = result
         for (p, e, olds) in olds_post:
-            v = e.eval(I, fr, olds)
+            v = _unwrap(e.eval(I, fr, olds))
             if p.is_result:
                 result = v
                 fr.locals['result'] = v
@@ -521,7 +579,7 @@ class Contract(object):
                     try:
                         want = e.eval(I, fr, olds)
                         got = result if p.is_result else I.ev(p.expr.body, fr)
-                        ok = I.truth_term(I.eq(got, want))
+                        ok = struct_eq(I, got, want)
                     except PyRaise as pr:
                         ctx.oblige("%s/post:%s" % (q, p.key), False, detail="evaluating the contract expression %s raised %r" % (e.text, pr.exc))
                         continue
@@ -591,14 +649,25 @@ class Contract(object):
                 if cv:
                     failures.append("returned although %s was required when %s" % (E.__name__, text))
             for (p, e, olds) in olds_post:
-                want = e.native(glob, env, olds)
-                got = result if p.is_result else p.expr.native(glob, env, [])
+                try:
+                    want = e.native(glob, env, olds)
+                    got = result if p.is_result else p.expr.native(glob, env, [])
+                except Exception as ex:
+                    if not failures:
+                        failures.append("post %s: evaluating the contract expression %s raised %r" % (p.key, e.text, ex))
+                    continue
                 if p.inplace and got is not inplace_ids[p.key]:
                     failures.append("post %s: object was rebound, contract says updated in place" % p.key)
                 if not _native_eq(got, want):
                     failures.append("post %s: got %r, contract %s gives %r" % (p.key, _short(got), e.text, _short(want)))
             for (e, olds) in olds_ens:
-                if not e.native(glob, env, olds):
+                try:
+                    okv = e.native(glob, env, olds)
+                except Exception as ex:
+                    if not failures:
+                        failures.append("ensures %s: evaluation raised %r" % (e.text, ex))
+                    continue
+                if not okv:
                     failures.append("ensures %s is false" % e.text)
             allowed = set(p.key for p, _ in self.post) | set(p.key for p in self.modifies) | set(p.key for p, _ in self.havoc)
             for name, o in pre_objs.items():
@@ -629,6 +698,11 @@ def _short(v, n=120):
 
 def _native_eq(a, b):
     try:
+        if isinstance(b, Exactly):
+            b = b.obj
+            if a is None or type(a) is not type(b) or set(a.__dict__) != set(b.__dict__):
+                return False
+            return all(_native_eq(a.__dict__[k], b.__dict__[k]) for k in b.__dict__)
         if isinstance(a, (bytes, bytearray)) and isinstance(b, (bytes, bytearray)):
             return bytes(a) == bytes(b)
         if isinstance(a, float) and isinstance(b, float) and a != a and b != b:
